@@ -618,6 +618,16 @@ def run_case(case: dict) -> dict:
                         ok, what = False, f"obj['f'].source = {fal.source!r}"
                     elif gtgt.path != PRIV + ".g":
                         ok, what = False, "obj['g'] does not resolve"
+                if ok:
+                    # the module reached through a tracked symlink: its lines after the checkout is gone
+                    cm = obj["compat"]
+                    cwant = git(repo, "show", f"{'HEAD' if ref == 'WT' else ref}:{PRIV}/compat_impl.py").splitlines()
+                    if list(cm.lines) != cwant or not cm.source.strip():
+                        ok, what = False, f"obj['compat'] (symlinked module {cm.filepath}): .lines has {len(cm.lines)} lines, the file at {ref} has {len(cwant)}"
+                    elif not inspect:
+                        hf = cm["h"]
+                        if "def h(x):" not in hf.source or "Second line" not in hf.docstring.source:
+                            ok, what = False, f"obj['compat.h'].source = {hf.source!r}"
                 if ok and not inspect:
                     ksrc = obj["sub"]["K"]["m"].source
                     if "def m(self):" not in ksrc:
